@@ -223,9 +223,12 @@ def oracle_commands(scn, res):
     """C10 / C09: the peer received exactly the prescribed command lines, one line per step"""
     v = []
     want = []
+    sure = None
     for ci, e in enumerate(scn["exp"]):
         if ci >= len(res["calls"]):
             break
+        if scn.get("reference_valid_until") is not None and ci == scn["reference_valid_until"]:
+            sure = len(want)
         want += [canon_line(c) for c in e["cmds"]]
         if res["calls"][ci]["out"] in ("blocked", "CRASH"):
             break
@@ -236,6 +239,10 @@ def oracle_commands(scn, res):
             if not line.endswith(b"\r\n"):
                 v.append((-1, "wire/line-not-terminated-by-CRLF", repr(line)))
             got.append(canon_line(line[:-2] if line.endswith(b"\r\n") else line.rstrip(b"\n")))
+    if sure is not None and len(got) >= sure and got == want[:len(got)]:
+        # the server wrote replies nobody asked for: the client answers its next command from them and may close (reset)
+        # the connection while its last command lines are still unread at the peer - those can be lost
+        got = want
     if got != want:
         k = 0
         while k < min(len(got), len(want)) and got[k] == want[k]:
